@@ -25,6 +25,9 @@ def domain_vals(sink, val, orient):
         e.assume(span * 10**6 >= -hi)
         e.assume(span * 10**6 >= lo)
         e.assume(span * 10**6 >= -lo)
+        # where a counter-example exists in this robust sub-box, report that one (floats replay it faithfully)
+        lo8, hi8 = lo * 8, hi * 8
+        e.model_hints = [span >= Fraction(1, 2), span <= 5000, lo >= -5000, hi <= 5000, lo8 == lo8.__floor__(), hi8 == hi8.__floor__()]
     return (lo, hi) if orient > 0 else (hi, lo)
 
 
@@ -149,6 +152,9 @@ def nice_props(sink, cfg, val, num):
 
 def configs_for(ms, kind):
     out = []
+    if kind == "ticks" and 100 not in ms:
+        # one large count (the generator must deliver every one of up to 1.43 m + 1 ticks)
+        out.append(dict(name="ticks-m100-asc", kind="ticks", m=100, orient=1, weight=100, shards=12))
     for m in ms:
         for o in (1, -1):
             out.append(dict(name="%s-m%s-%s" % (kind, m, "asc" if o > 0 else "desc"), kind=kind, m=m, orient=o, weight=(m or 10), shards=4 if (m or 10) >= 5 else 1))
